@@ -252,7 +252,7 @@ func (in *interp) visitInstr(fr *frame, instr ssa.Instruction) continuation {
 		in.spawn(fr, instr, fn, args)
 	case *ssa.MakeChan:
 		n, _ := in.concInt(fr.get(instr.Size), 0, 1<<20, "chan-size")
-		fr.set(instr, in.makeChan(int(n), in.siteOf(fr, instr.Pos())))
+		fr.set(instr, in.makeChan(int(n), fr.fn.String()))
 	case *ssa.Alloc:
 		var addr *value
 		if instr.Heap {
